@@ -27,8 +27,10 @@ Fixpoint fill (off len : nat) (b : N) (d : list N) : option (list N) :=
   end.
 
 Definition byte_of (v : Z) : N := Z.to_N (u8 v).
-Definition fits_u8 (v : Z) : bool := u32 v <=? 255.
-Definition fits_u16 (v : Z) : bool := u32 v <=? 65535.
+(* `(value as u32) > u8::MAX` etc.: for an i32 value the unsigned image is at most 255 exactly when
+   0 <= value <= 255 (LinkerFacts.fits_u8_u32) *)
+Definition fits_u8 (v : Z) : bool := (0 <=? v) && (v <=? 255).
+Definition fits_u16 (v : Z) : bool := (0 <=? v) && (v <=? 65535).
 Definition fits_i8 (v : Z) : bool := (-128 <=? v) && (v <=? 127).
 
 Definition of_patch (o : option (list N)) : outcome (list N) :=
